@@ -132,6 +132,10 @@ def targets(meth):
         ("generator-var-call-in-later-for", "any(True for g in [1] for f in [r.c.%s] if f())" % meth),
         ("generator-var-call-in-nested-iterable", "any(any(q for q in f()) for f in [r.c.%s])" % meth),
         ("generator-var-call-in-nested-iterable", "any(any(True for q in [1] if f()) for f in [r.c.%s])" % meth),
+        # a call site that is evaluated before AND after a later 'for' binds its name to a callable
+        ("generator-var-shadows-call-site-seen-earlier", "any(x == 9 for x in [1, 2] if %s('p') for %s in [r.c.m])" % (meth, meth)),
+        ("generator-var-shadows-call-site-seen-earlier", "any(x == 9 for x in [1, 2, 3] for y in [%s('p')] for %s in [r.c.m])" % (meth, meth)),
+        ("generator-var-shadows-call-site-seen-earlier", "all(x == 9 or %s('p') for x in [1, 2] for %s in [r.c.m, r.sl.append])" % (meth, meth)),
         ("generator-var-named-like-whitelisted", "any(%s() for %s in [r.c.m])" % (meth, meth)),
         ("generator-var-named-like-whitelisted", "any(%s(1) for %s in [r.c.m, r.s.upper])" % (meth, meth)),
         ("call-of-call", "r.c.%s()()" % meth),
@@ -261,6 +265,40 @@ def hostile_cases(tier):
     return cases
 
 
+READ_METHODS = ["pop", "clear", "sort", "reverse", "append", "copy", "upper", "strip", "as_posix", "keys", "m", "delete",
+                "poke", "close", "flush", "_pack", "_asdict", "isoformat"]
+
+
+def read_cases(tier):
+    """Expressions without any call syntax: attribute READS are allowed, but a read must stay a read - nothing is
+    invoked on the record's values (whatever the attribute is called) and the record is the same afterwards."""
+    cases = []
+    for m in READ_METHODS + ORDINARY[:4]:
+        for shape, src in [
+            ("type-matcher-attr", "Type.record.%s == 1" % m),
+            ("type-matcher-attr", "Type.record.a.%s == 1" % m),
+            ("type-matcher-attr", "Type.string.%s == 'ABC'" % m),
+            ("type-matcher-attr", "Type.stringlist.%s == 'y'" % m),
+            ("type-matcher-attr", "Type.stringlist.%s != None" % m),
+            ("type-matcher-attr", "'y' in Type.stringlist.%s" % m),
+            ("type-matcher-attr", "Type.uri.%s == 'x'" % m),
+            ("type-matcher-attr", "Type.varint.%s > 1" % m),
+            ("field-attr", "r.c.%s == 1" % m),
+            ("field-attr", "r.sl.%s == 1" % m),
+            ("field-attr", "r.s.%s != 1" % m),
+            ("field-attr", "r.cs.%s == 1" % m),
+            ("field-attr", "any(q.%s == 1 for q in [r.c, r.sl, r.s])" % m),
+            ("field-attr", "str(r.sl.%s) == 'x'" % m),
+            ("field-attr", "lower(r.c.%s) == 'x'" % m),
+            ("field-attr", "field_equals(r, ['s'], [r.sl.%s])" % m),
+        ]:
+            for cname, ctpl in CONTEXTS:
+                if cname not in ("bare", "not", "boolop-right", "gen-condition", "call-arg-str"):
+                    continue
+                cases.append({"kind": "read", "shape": shape, "mclass": "read", "ctx": cname, "src": ctpl.format(X=src)})
+    return cases
+
+
 def benign_cases(tier):
     return [{"kind": "benign", "shape": "benign", "mclass": "benign", "ctx": c, "src": t.format(X=b)}
             for b in BENIGN for c, t in CONTEXTS if c not in ("attr-of", "ctor-arg")]
@@ -285,6 +323,13 @@ def check_case(case, ctx):
             raise Violation("benign/refused", "whitelisted call refused: %s -> %r" % (src, res), detail=case["ctx"])
         if invoked:
             raise RuntimeError("harness: benign expression touched a canary: %s" % src)
+    elif case["kind"] == "read":
+        # the Type matcher walks nested records through the record protocol (rec._desc.getfields(..)); on a canary
+        # standing in for a nested record that shows up as a call - it is the library's own traversal, not the expression's
+        invoked = [x for x in invoked if "._desc." not in x[1]]
+        if invoked:
+            raise Violation(base + "/canary-invoked", "%s (no call in the expression) invoked %r (outcome %r)"
+                            % (src, invoked, res), detail=detail)
     else:
         if invoked:
             raise Violation(base + "/canary-invoked",
@@ -330,5 +375,6 @@ def parts(tier):
     return [
         Part("hostile-shapes", check_case, cases=hostile_cases, exhaustive=True),
         Part("benign-calls", check_case, cases=benign_cases, exhaustive=True),
+        Part("attribute-reads", check_case, cases=read_cases, exhaustive=True),
         Part("nested-contexts", check_case, strategy=nested_case(), examples=(300, 30000)),
     ]
